@@ -115,8 +115,9 @@ impl Prog {
                 FItem::Lds => self.line("lds r17, 0x61", 1),
                 FItem::Jmp => self.line("jmp 0x1234", 2),
                 FItem::Dw => self.line(".dw 0x5a5a", 1),
-                FItem::Db1 => self.line(".db 1", 1),
-                FItem::Db3 => self.line(".db 1, 2, 3", 2),
+                // (strings too: a non-ASCII character is two bytes, the line is as long as its bytes)
+                FItem::Db1 => self.line([".db 1", ".db \"\u{e9}\"", ".db \"x\""][(mode as usize >> 3) % 3], 1),
+                FItem::Db3 => self.line([".db 1, 2, 3", ".db \"a\u{e9}\"", ".db \"\u{e9}\", 5", ".db \"\u{20ac}\""][(mode as usize >> 5) % 4], 2),
                 FItem::Gap3 => {
                     let a = self.addr + 3;
                     self.org(a)
